@@ -46,6 +46,7 @@ THEOREMS = [
     "Scenic.C07.beyond_scalar", "Scenic.C07.beyond_parent_inherited",
     "Scenic.C07.facing_toward", "Scenic.C07.facing_directly_toward",
     "Scenic.C07.facing_family_generated", "Scenic.C07.facing_family_meaning",
+    "Scenic.C07.facing_local_unique", "Scenic.C07.facing_number_global", "Scenic.C07.facing_yaw_difference_unsound",
     "Scenic.C07.following_uniform", "Scenic.C07.following_uniform_total", "Scenic.C07.following_step",
     "Scenic.C07.follow_step_rule",
     # operators
